@@ -91,15 +91,17 @@ Range(s) == {s[i] : i \in DOMAIN s}
 ScalarTypes == {"i8", "i16", "i32", "i64", "u8", "u16", "u32", "u64", "f32", "f64", "str", "bool", "bytes"}
 NumTypes == {"i8", "i16", "i32", "i64", "u8", "u16", "u32", "u64", "f32", "f64"}
 
-CNil == [void |-> FALSE, t |-> "none", v |-> 0, hs |-> FALSE, u |-> <<>>]   \* no content yet (fresh object)
+CNil == [void |-> FALSE, t |-> "nil", v |-> 0, hs |-> FALSE, u |-> <<>>]     \* no content yet (fresh object: Content is nil)
+CEmpty == [void |-> FALSE, t |-> "none", v |-> 0, hs |-> FALSE, u |-> <<>>]  \* a content struct with nothing in it (only after a reload)
+HasScalar(c) == c.t \notin {"none", "nil"}
 CVoid == [void |-> TRUE, t |-> "none", v |-> 0, hs |-> FALSE, u |-> <<>>]
 CScalar(t, v) == [void |-> FALSE, t |-> t, v |-> v, hs |-> FALSE, u |-> <<>>]
 CSlice(u) == [void |-> FALSE, t |-> "none", v |-> 0, hs |-> TRUE, u |-> u]
 
 \* the content type every read path reports (treasure.GetContentType)
-TypeOf(c) == IF c.void THEN "void" ELSE IF c.t # "none" THEN c.t ELSE IF c.hs THEN "u32s" ELSE "void"
+TypeOf(c) == IF c.void THEN "void" ELSE IF HasScalar(c) THEN c.t ELSE IF c.hs THEN "u32s" ELSE "void"
 \* what Clone copies (treasure.cloneContent looks at the set before the void flag)
-CloneOf(c) == IF c.t # "none" THEN CScalar(c.t, c.v) ELSE IF c.hs THEN CSlice(c.u) ELSE IF c.void THEN CVoid ELSE CNil
+CloneOf(c) == IF HasScalar(c) THEN CScalar(c.t, c.v) ELSE IF c.hs THEN CSlice(c.u) ELSE IF c.void THEN CVoid ELSE CNil
 Normal(c) == c = CVoid \/ (c.t \in ScalarTypes /\ c = CScalar(c.t, c.v)) \/ c = CSlice(c.u)
 
 Fresh == [c |-> CNil, ca |-> 0, cb |-> 0, ua |-> 0, ub |-> 0, ea |-> 0, dirty |-> FALSE]
@@ -185,7 +187,7 @@ SetContent(c, it) ==
        ELSE [c |-> CScalar(it.t, it.v), ch |-> TRUE, dv |-> {}]
   ELSE IF it.t = "u32s" /\ it.u # <<>> THEN
        LET want == CSlice(PushSeq(<<>>, it.u))
-           got == [c EXCEPT !.hs = TRUE, !.u = PushSeq(c.u, it.u)]
+           got == [c EXCEPT !.t = IF @ = "nil" THEN "none" ELSE @, !.hs = TRUE, !.u = PushSeq(c.u, it.u)]
        IN IF D("SetSliceMerges")
             THEN [c |-> got, ch |-> got.u # c.u, dv |-> IF got = want THEN {} ELSE {"SetSliceMerges"}]
             ELSE [c |-> want, ch |-> want # c, dv |-> {}]
@@ -375,7 +377,7 @@ PushPairs(ps, i, S, bad, dv) ==
        IN IF wrong /\ ~D("U32PushWrongType") THEN PushPairs(ps, i + 1, S, TRUE, dv)
           ELSE LET c2 == IF old.c = CNil \/ (old.c.hs /\ ty = "u32s") \/ ~D("U32PushWrongType")
                            THEN CSlice(PushSeq(IF old.c.hs THEN old.c.u ELSE <<>>, ps[i].u))
-                           ELSE [old.c EXCEPT !.hs = TRUE, !.u = PushSeq(old.c.u, ps[i].u)]
+                           ELSE [old.c EXCEPT !.t = IF @ = "nil" THEN "none" ELSE @, !.hs = TRUE, !.u = PushSeq(old.c.u, ps[i].u)]
                    new == [old EXCEPT !.c = c2]
                    sv == SaveObj(S, k, new, c2.u # old.c.u)
                IN PushPairs(ps, i + 1, sv.S, bad,
@@ -468,7 +470,7 @@ DoGetByExpiry(q, S) ==
 \* deviation every zero-like component of the content is gone after the round trip
 Reloaded(r) ==
   LET c == r.c
-      keepScalar == c.t # "none" /\ c.v # 0
+      keepScalar == HasScalar(c) /\ c.v # 0
       keepSet == c.hs /\ c.u # <<>>
       c2 == [void |-> c.void, t |-> IF keepScalar THEN c.t ELSE "none", v |-> IF keepScalar THEN c.v ELSE 0,
              hs |-> keepSet, u |-> IF keepSet THEN c.u ELSE <<>>]
